@@ -2,8 +2,10 @@
 the PromQL engine once, under its own labels, with its samples of the range in ascending order, through a cursor that
 honours the chunkenc.Iterator seek/next contract, so PromQL over raw samples returns what Prometheus returns.
 
-Specs: spec/query/PromCursor.tla (cursor transcription vs contract, lock step) and spec/query/Selector.tla (matcher
-definition vs the label-index bitmask query). TLC checks them and EXPORTS (a) the contract step table, (b) every
+Specs: spec/query/PromCursor.tla (cursor transcription vs contract, lock step), spec/query/Selector.tla (matcher
+definition vs the label-index bitmask query) and spec/query/SelectDays.tla (the day dimension of a Select: zone of the reader
+process x window position relative to the UTC midnights x series whose index rows exist only on the UTC days of their samples;
+the date bounds of the index statements must not lose a series that has a sample in the window). TLC checks them and EXPORTS (a) the contract step table, (b) every
 (series database, matcher set) case with the series the definition selects. harness/cmd/c17 replays (a) on the real
 model.Series iterator under every call sequence, (b) through the real CLokiQuerier.Select / Prometheus HTTP routes /
 Pyroscope routes over chsql with the real DDL, and runs the vendored Prometheus engine over the real qryn Queryable
@@ -50,6 +52,18 @@ CONSTANTS
   OutFile = "%(outfile)s"
 %(props)s
 CONSTRAINT PlanOK
+CHECK_DEADLOCK FALSE
+'''
+
+DAYS_CFG = '''SPECIFICATION Spec
+CONSTANTS
+  Days = 3
+  DayTicks = %(dayticks)d
+  ZoneOffs <- MCZoneOffs
+  MaxLen = %(maxlen)d
+  MaxSamples = %(maxsamples)d
+  OutFile = "seldays.json"
+INVARIANTS TypeOK NoMiss SelectedHaveSamples
 CHECK_DEADLOCK FALSE
 '''
 
@@ -231,6 +245,10 @@ def run(tier):
             pf = selcfg('prom_full', 'prom', KV2, '{}', [(3, 3)])
             pf['outfile'] = ''
             par.go('sel_full', tlc_run, 'MC_Selector.tla', SEL_CFG % dict(pf, props='INVARIANTS MechEqDefOnSafe MechSubset PerSeries'), 'prom_full', {}, 6, 2400)
+        # ---------------- TLC: the day dimension of Select (check + export) ----------------
+        db_ = {'dayticks': 4, 'maxlen': 5 if quick else 11, 'maxsamples': 2 if quick else 3}
+        daysp = os.path.join(sd, 'seldays.json')
+        par.go('sel_days', tlc_run, 'MC_SelectDays.tla', DAYS_CFG % db_, 'sel_days', {'seldays.json': daysp}, 2, 900)
         # the property itself on the spec: mechanism = definition (a counterexample is a candidate for the real code)
         for kind, p in (('prom', selcfg('eq_prom', 'prom', KV2, '{}', [(1, 1)])), ('prof', selcfg('eq_prof', 'prof', KV1, G1, [(1, 1)]))):
             par.go('eq_' + kind, tlc_run, 'MC_SelectorExport.tla', SEL_CFG % dict(p, props='INVARIANTS MechEqDef'), p['name'],
@@ -271,6 +289,9 @@ def run(tier):
             for i, part in enumerate(parts):
                 sub = 'select' if p['kind'] == 'prom' else 'prof'
                 par.go('%s#%d' % (p['name'], i), run_driver, binp, [sub, '-cases', part, '-seed', str(vlib.seed())], part + '.out')
+        if not os.path.exists(daysp):
+            raise vlib.Infra('MC_SelectDays exported no cases')
+        par.go('seldays', run_driver, binp, ['seldays', '-cases', daysp, '-seed', str(vlib.seed())], os.path.join(sd, 'seldays_out.json'))
         os.makedirs(os.path.join(sd, 'tsdb'), exist_ok=True)
         par.go('promql', run_driver, binp, ['promql', '-seed', str(vlib.seed()), '-n', '6' if quick else '40', '-tmp', os.path.join(sd, 'tsdb')],
                os.path.join(sd, 'promql_out.json'))
@@ -324,6 +345,23 @@ def run(tier):
                 raise vlib.Infra('TLC counterexample of MechEqDef %s does not reproduce against the real %s selector: Selector.tla misrepresents the code'
                                  % (json.dumps(one[0]), kind))
             total_cases += 1
+
+        # ---- the day dimension of Select
+        dy = out['seldays']
+        ndays = len(json.load(open(daysp))['cases'])
+        ds = dy['stats']
+        if ds.get('cases', 0) != ndays or ds.get('selects', 0) != ndays:
+            raise vlib.Infra('seldays ran %s / %s of %d exported cases' % (ds.get('cases'), ds.get('selects'), ndays))
+        if min(ds.get('cases_zone_west', 0), ds.get('cases_zone_east', 0), ds.get('cases_zone_utc', 0),
+               ds.get('cases_a_process_zone_upper_day_bound_would_lose_series', 0),
+               ds.get('cases_a_process_zone_lower_day_bound_would_lose_series', 0)) < 5 or ds.get('expected_series', 0) < 500:
+            raise vlib.Infra('the day dimension of Select is covered vacuously: %s' % json.dumps(ds))
+        for v in dy['violations']:
+            path = vlib.save_replay('C17', safe(v['signature']), {'kind': 'TLC case of SelectDays.tla concretised and run through the real CLokiQuerier.Select under the process zone of the case',
+                                                                  'finding': v})
+            viols.append({'property': 'C17', 'signature': v['signature'], 'msg': v['msg'], 'replay': path})
+        total_cases += ds['cases']
+        sel_cov['days'] = {'bounds': db_, 'stats': ds, 'tlc': res['sel_days'], 'sample': (dy.get('samples') or [None])[:1]}
 
         # ---- PromQL differential verdicts
         pq = out['promql']
